@@ -36,7 +36,7 @@ def ob(sec, opt, mode, L, timeout, fixb=None, extra=(), long=False):
     return vf.CH(f"C16 {mode} {sec}.{opt}" + (f" {sorted(fixb.items())}" if fixb else "") + (f" with {' '.join(extra)} also on the command line" if extra else "") + (" (long option spellings)" if long else ""), "c16_layer.py",
                  dict(MODE=mode, SECTION=sec, OPTION=opt, CLI=(LONG[CLI[(sec, opt)]] if long and (sec, opt) in CLI else CLI.get((sec, opt))), L=L, NCP=n, FIXB=fixb,
                       EXTRA=tuple(extra), SFLAG="--settings" if long else "-s"),
-                 timeout=timeout, encodes=ENC, unblock=["os.mkdir"],
+                 timeout=(max(timeout, 600) if mode == "outdir" else timeout), encodes=ENC, unblock=["os.mkdir"],
                  symbolic="whether a -s file is given at all; for each of the three writable sources (per-user file, -s file, command line where a flag exists): whether it sets the option, and the value it gives"
                           + ("; relative_to_config switched on in the -s file and/or the per-user file" if mode == "outdir" else ""),
                  bound=f"strings of exactly {L} chars, lists of 2 strings (exclude filters: 2 strings or, in a file, the empty list), output directories from a 4-entry menu")
